@@ -769,7 +769,7 @@ theorem Impl.hasAll_iff (db : Impl.Db) (t : Bytes) (sigs : List Impl.SData) :
 
 theorem Impl.appendBytes_ok {E : Impl.Env} {l l' : Impl.SList} {o d : Bytes}
     (h : l.appendBytes E o d = .ok l') :
-    (⟨o, d⟩ : Impl.SData) ∉ l.sigs ∧
+    (⟨o, E.norm l.type d⟩ : Impl.SData) ∉ l.sigs ∧
     ¬(l.type = Impl.guidSha256 ∧ (E.norm l.type d).length ≠ 32) ∧
     (l.sigs = [] ∨ (E.norm l.type d).length + 16 = l.size) ∧
     l' = { l with sigs := l.sigs ++ [⟨o, E.norm l.type d⟩],
@@ -797,12 +797,12 @@ theorem Impl.appendBytes_ok {E : Impl.Env} {l l' : Impl.SList} {o d : Bytes}
 
 theorem Impl.appendBytes_error {E : Impl.Env} {l : Impl.SList} {o d : Bytes} {e : Impl.AErr}
     (h : l.appendBytes E o d = .error e) :
-    (⟨o, d⟩ : Impl.SData) ∈ l.sigs ∨
+    (⟨o, E.norm l.type d⟩ : Impl.SData) ∈ l.sigs ∨
     (l.type = Impl.guidSha256 ∧ (E.norm l.type d).length ≠ 32) ∨
     (l.sigs ≠ [] ∧ (E.norm l.type d).length + 16 ≠ l.size) := by
   simp only [Impl.SList.appendBytes] at h
   split at h
-  · rename_i h1; exact Or.inl ((Impl.SList.has_iff l o d).mp h1)
+  · rename_i h1; exact Or.inl ((Impl.SList.has_iff l o _).mp h1)
   split at h
   · rename_i h2; exact Or.inr (Or.inl h2)
   split at h
@@ -822,9 +822,8 @@ theorem Impl.appendBytes_inv {E : Impl.Env} {l l' : Impl.SList} {o d : Bytes}
     (hLS : l.listSize = 28 + l.sigs.length * l.size)
     (hs : ∀ s ∈ l.sigs, s.owner.length = 16 ∧ s.data.length + 16 = l.size)
     (hnd : l.sigs.Nodup) (ho : o.length = 16)
-    (hnew : (⟨o, E.norm l.type d⟩ : Impl.SData) ∉ l.sigs)
     (h : l.appendBytes E o d = .ok l') : l'.Inv := by
-  obtain ⟨_, _, h3, e⟩ := Impl.appendBytes_ok h
+  obtain ⟨hnew, _, h3, e⟩ := Impl.appendBytes_ok h
   clear h
   generalize E.norm l.type d = d' at *
   subst e
@@ -887,8 +886,10 @@ theorem Impl.appendInto_abs {E : Impl.Env} {t o d : Bytes} {db db' : Impl.Db}
         · rw [Impl.abs_cons, e2, List.append_assoc]
       · simp at h
 
+/-- since the F27 repair the list-level duplicate check looks at what is stored, so no idempotence
+    hypothesis (`E.norm t d = d`) is needed any more -/
 theorem Impl.appendInto_inv {E : Impl.Env} {t o d : Bytes} {db db' : Impl.Db}
-    (hinv : Impl.Db.Inv db) (ho : o.length = 16) (ht : t.length = 16) (hd : E.norm t d = d)
+    (hinv : Impl.Db.Inv db) (ho : o.length = 16) (ht : t.length = 16)
     (h : Impl.appendInto E t o d db = .ok db') : Impl.Db.Inv db' := by
   induction db generalizing db' with
   | nil =>
@@ -899,7 +900,7 @@ theorem Impl.appendInto_inv {E : Impl.Env} {t o d : Bytes} {db db' : Impl.Db}
       intro x hx
       simp only [List.mem_singleton] at hx; subst hx
       exact Impl.appendBytes_inv (l := Impl.newList t) ht rfl rfl (by simp [Impl.newList])
-        (by simp [Impl.newList]) (by simp [Impl.newList]) ho (by simp [Impl.newList]) h1
+        (by simp [Impl.newList]) (by simp [Impl.newList]) ho h1
     · simp at h
   | cons l ls ih =>
     obtain ⟨hl, hls⟩ := Impl.Db.inv_cons.mp hinv
@@ -910,9 +911,7 @@ theorem Impl.appendInto_inv {E : Impl.Env} {t o d : Bytes} {db db' : Impl.Db}
       · rename_i l' h1
         simp only [Except.ok.injEq] at h; subst h
         obtain ⟨hty, hH, hhdr, _, hLS, hs, hnd⟩ := hl
-        have hnew : (⟨o, E.norm l.type d⟩ : Impl.SData) ∉ l.sigs := by
-          rw [hc.1, hd]; exact (Impl.appendBytes_ok h1).1
-        exact Impl.Db.inv_cons.mpr ⟨Impl.appendBytes_inv hty hH hhdr hLS hs hnd ho hnew h1, hls⟩
+        exact Impl.Db.inv_cons.mpr ⟨Impl.appendBytes_inv hty hH hhdr hLS hs hnd ho h1, hls⟩
       · simp at h
     · split at h
       · rename_i ls' h1
@@ -943,7 +942,7 @@ theorem Impl.appendInto_error {E : Impl.Env} {t o d : Bytes} {db : Impl.Db} {e :
       · simp at h
       · rename_i e' h1
         rcases Impl.appendBytes_error h1 with h2 | h2 | h2
-        · exact Or.inl (Impl.mem_abs_cons.mpr (Or.inl ⟨hc.1, h2⟩))
+        · rw [hc.1, hd] at h2; exact Or.inl (Impl.mem_abs_cons.mpr (Or.inl ⟨hc.1, h2⟩))
         · rw [hc.1, hd] at h2; exact Or.inr h2
         · rw [hc.1, hd] at h2; exact absurd hc.2.symm h2.2
     · split at h
@@ -1149,12 +1148,19 @@ theorem Impl.appendList_inv {db : Impl.Db} {l : Impl.SList} (hdb : Impl.Db.Inv d
   · exact hdb x hx
   · exact hl
 
-theorem Impl.Db.append_inv {E : Impl.Env} {db db' : Impl.Db} {t o d : Bytes}
-    (hinv : Impl.Db.Inv db) (ho : o.length = 16)
-    (hidem : E.norm t (E.norm t d) = E.norm t d) (h : db.append E t o d = .ok db') :
+/-- `Append` keeps the invariant, idempotent normalisation or not (F27 repair) -/
+theorem Impl.Db.append_inv_raw {E : Impl.Env} {db db' : Impl.Db} {t o d : Bytes}
+    (hinv : Impl.Db.Inv db) (ho : o.length = 16) (h : db.append E t o d = .ok db') :
     Impl.Db.Inv db' := by
   obtain ⟨hs, _, hi⟩ := Impl.Db.append_ok h
-  exact Impl.appendInto_inv hinv ho (Impl.schemes_length t hs) hidem hi
+  exact Impl.appendInto_inv hinv ho (Impl.schemes_length t hs) hi
+
+/-- (the idempotence hypothesis is kept for the callers; it is no longer used) -/
+theorem Impl.Db.append_inv {E : Impl.Env} {db db' : Impl.Db} {t o d : Bytes}
+    (hinv : Impl.Db.Inv db) (ho : o.length = 16)
+    (_hidem : E.norm t (E.norm t d) = E.norm t d) (h : db.append E t o d = .ok db') :
+    Impl.Db.Inv db' :=
+  Impl.Db.append_inv_raw hinv ho h
 
 /-- the databases a client can build: start empty or from a decoded duplicate-free stream, then
     append / remove entries or append whole well-formed lists -/
